@@ -26,7 +26,12 @@ pub enum Plan {
     /// RESET(code) after this many bytes of the healthy message
     ResetAt(usize, u64),
     StopSending(u64),
+    /// STOP_SENDING(code) that is certainly known to the endpoint's transport BEFORE it sends on that request (the
+    /// client's request task waits for it before its first send_data): the sending half must then report it
+    StopSendingEarly(u64),
     MalformedUppercase,
+    /// a head with a field line whose NAME is empty (validly encoded, malformed message)
+    MalformedEmptyName,
     /// a healthy head and body, then trailers with an uppercase field name
     MalformedTrailers,
     MalformedNoMethodOrStatus,
@@ -98,6 +103,7 @@ fn faulty_head(me: Endpoint, plan: Plan) -> Vec<u8> {
             fields.remove(0);
         }
         Plan::MalformedBadValue => fields.push(f("x", b"a\nb")),
+        Plan::MalformedEmptyName => fields.push(f("", b"x")),
         Plan::Oversize => fields.push(f("big", &vec![b'z'; LIMIT as usize])),
         _ => {}
     }
@@ -151,6 +157,7 @@ pub fn execute(case: &Case, seed: u64, read: Policy) -> Outcome {
         }
         Endpoint::Client => {
             let (net2, drv2, sp, hs, cs) = (net.clone(), drv.clone(), ex.spawner(), handlers.clone(), client_sends.clone());
+            let plans = case.plans.clone();
             ex.spawn("main", async move {
                 let mut b = h3::client::builder();
                 b.send_grease(false).max_field_section_size(LIMIT);
@@ -174,6 +181,7 @@ pub fn execute(case: &Case, seed: u64, read: Policy) -> Outcome {
                     let out = shared(MsgObs::default());
                     hs.borrow_mut().push(out.clone());
                     let cs2 = cs.clone();
+                    let (plans2, net3) = (plans.clone(), net2.clone());
                     sp.spawn(format!("request{i}"), async move {
                         out.borrow_mut().stage = "send_request".into();
                         let req = http::Request::post("https://a/").body(()).unwrap();
@@ -181,6 +189,13 @@ pub fn execute(case: &Case, seed: u64, read: Policy) -> Outcome {
                             Ok(mut s) => {
                                 let id = s.id().into_inner();
                                 out.borrow_mut().stream_id = Some(id);
+                                if matches!(plans2.get((id / 4) as usize), Some(Plan::StopSendingEarly(_))) {
+                                    let mut spins = 0;
+                                    while !net3.write_side_stopped(CLIENT, id) && spins < 600 {
+                                        spins += 1;
+                                        yield_now().await;
+                                    }
+                                }
                                 let r = async {
                                     out.borrow_mut().stage = "send_data".into();
                                     s.send_data(Bytes::from(body_for(id))).await?;
@@ -256,6 +271,12 @@ pub fn execute(case: &Case, seed: u64, read: Policy) -> Outcome {
                     Plan::StopSending(code) => {
                         let mut v = pieces(&healthy);
                         v.insert(1, Step::Stop(code));
+                        v.push(Step::Fin);
+                        v
+                    }
+                    Plan::StopSendingEarly(code) => {
+                        let mut v = pieces(&healthy);
+                        v.insert(0, Step::Stop(code));
                         v.push(Step::Fin);
                         v
                     }
@@ -384,6 +405,7 @@ fn plan_name(p: Plan) -> String {
     match p {
         Plan::ResetAt(k, _) => format!("reset@{k}"),
         Plan::StopSending(_) => "stop-sending".into(),
+        Plan::StopSendingEarly(c) => format!("stop-sending-early({c:#x})"),
         other => format!("{other:?}"),
     }
 }
@@ -468,7 +490,20 @@ pub fn judge(case: &Case, o: &Outcome) -> Vec<(String, String)> {
                     out.push((format!("C07:{role}:stop-sending-harmed-receive-side"), format!("{ctx}: stream {id}: {m:?}")));
                 }
             }
-            Plan::MalformedUppercase | Plan::MalformedNoMethodOrStatus | Plan::MalformedBadValue => {
+            Plan::StopSendingEarly(code) => {
+                let want = format!("RemoteTerminate({code:#x})");
+                let sent = if case.me == Endpoint::Server { m.sent.clone() } else { csend.clone() };
+                if sent != want {
+                    out.push((
+                        format!("C07:{role}:early-stop-sending-reported-as:{}", if sent.is_empty() { "pending" } else { &sent }),
+                        format!("{ctx}: stream {id}: the peer's STOP_SENDING({code:#x}) was known before the first send call; the sending half returned {sent:?}, expected {want}"),
+                    ));
+                }
+                if m.head != "ok" || m.body != body_for(id) {
+                    out.push((format!("C07:{role}:stop-sending-harmed-receive-side"), format!("{ctx}: stream {id}: {m:?}")));
+                }
+            }
+            Plan::MalformedUppercase | Plan::MalformedNoMethodOrStatus | Plan::MalformedBadValue | Plan::MalformedEmptyName => {
                 let want = format!("Stream({:#x})", auto::H3_MESSAGE_ERROR);
                 if m.head != want {
                     out.push((format!("C07:{role}:malformed-reported-as:{}", if m.head.is_empty() { "pending" } else { &m.head }), format!("{ctx}: stream {id}: expected {want}; {m:?}")));
@@ -501,6 +536,8 @@ fn plan_json(p: Plan) -> Value {
         Plan::Healthy => json!("healthy"),
         Plan::ResetAt(k, c) => json!(["reset", k, c]),
         Plan::StopSending(c) => json!(["stop", c]),
+        Plan::StopSendingEarly(c) => json!(["stopearly", c]),
+        Plan::MalformedEmptyName => json!("emptyname"),
         Plan::MalformedUppercase => json!("upper"),
         Plan::MalformedTrailers => json!("uppertrailers"),
         Plan::MalformedNoMethodOrStatus => json!("nomethod"),
@@ -515,6 +552,7 @@ fn plan_from(v: &Value) -> Plan {
         Value::String(s) => match s.as_str() {
             "healthy" => Plan::Healthy,
             "upper" => Plan::MalformedUppercase,
+            "emptyname" => Plan::MalformedEmptyName,
             "uppertrailers" => Plan::MalformedTrailers,
             "nomethod" => Plan::MalformedNoMethodOrStatus,
             "badvalue" => Plan::MalformedBadValue,
@@ -522,6 +560,7 @@ fn plan_from(v: &Value) -> Plan {
             _ => Plan::FinBeforeHeaders,
         },
         a if a[0] == "reset" => Plan::ResetAt(a[1].as_u64().unwrap() as usize, a[2].as_u64().unwrap()),
+        a if a[0] == "stopearly" => Plan::StopSendingEarly(a[1].as_u64().unwrap()),
         a => Plan::StopSending(a[1].as_u64().unwrap()),
     }
 }
@@ -533,7 +572,7 @@ pub fn run(args: &Args) -> i32 {
     let mut rep = Report::new("C07", args.tier, args.seed, "model_checking");
     rep.exhaustive = true;
     rep.rule = format!(
-        "{n} concurrent requests on one connection; each request is healthy or suffers one fault of {{RESET(0x10c) after 0 / 1 / header-boundary / mid-DATA bytes, RESET(0) mid-frame, STOP_SENDING(0x10c), uppercase field name in the head or in the trailers, missing :method/:status, LF in a value, section over the limit, FIN before HEADERS (server role)}}, healthy heads padded to exactly the configured limit (on the second stream Huffman-coded with 26-bit symbols, so that its encoded form is more than twice the limit while its size by the RFC rule is the limit); every assignment with exactly one faulty request (thorough: at least one healthy and one faulty) also while a graceful shutdown is under way (the peer's GOAWAY, with an identifier that lets all of them continue, delivered after the requests were started and before the first fault); every assignment (including all healthy, and all faulty when homogeneous in the first two), for a real server and a real client against a scripted peer that plays the streams round-robin in three writes each. Every execution with <= {bound} deviations (scheduling among handler/request tasks, driver and script; an application pause between any two calls of the request API; chunk cuts and delayed delivery on every request stream), plus one-byte-per-read, plus (server role) the sequential server loop that handles each request inside the accept loop, whole and one byte per read. Oracle: healthy requests deliver exactly their own position-coded bytes and complete, their responses are complete on the wire; no close(); drivers report no error; each faulty request reports the stream-level error the property names and never a connection error. states = distinct (transport cursors, per-request progress) fingerprints; non-trivial = executions with a deviation."
+        "{n} concurrent requests on one connection; each request is healthy or suffers one fault of {{RESET(0x10c) after 0 / 1 / header-boundary / mid-DATA bytes, RESET(0) mid-frame, STOP_SENDING(0x10c / H3_NO_ERROR), a STOP_SENDING (both codes) that is certainly known before the endpoint's first send call on that request, uppercase field name in the head or in the trailers, an empty field name, missing :method/:status, LF in a value, section over the limit, FIN before HEADERS (server role)}}; quick tier: every assignment over the core faults {{healthy, RESET after 1 byte, RESET mid-DATA, STOP_SENDING, uppercase name, oversize, FIN before HEADERS}} and, for each further fault, every assignment over {{healthy, that fault, RESET mid-DATA}} containing it; thorough tier: for each further fault every assignment over the core faults and that fault containing it; healthy heads padded to exactly the configured limit (on the second stream Huffman-coded with 26-bit symbols, so that its encoded form is more than twice the limit while its size by the RFC rule is the limit); every assignment with exactly one faulty request (thorough: at least one healthy and one faulty) also while a graceful shutdown is under way (the peer's GOAWAY, with an identifier that lets all of them continue, delivered after the requests were started and before the first fault); every assignment (including all healthy, and all faulty when homogeneous in the first two), for a real server and a real client against a scripted peer that plays the streams round-robin in three writes each. Every execution with <= {bound} deviations (scheduling among handler/request tasks, driver and script; an application pause between any two calls of the request API; chunk cuts and delayed delivery on every request stream), plus one-byte-per-read, plus (server role) the sequential server loop that handles each request inside the accept loop, whole and one byte per read. Oracle: healthy requests deliver exactly their own position-coded bytes and complete, their responses are complete on the wire; no close(); drivers report no error; each faulty request reports the stream-level error the property names and never a connection error. states = distinct (transport cursors, per-request progress) fingerprints; non-trivial = executions with a deviation."
     );
     rep.assumptions = vec!["a STOP_SENDING that arrives after the sending half completed is not reported (ok accepted)".into(), "client role: a response stream FIN-ed before HEADERS is not in the fault set (DESIGN.md 7)".into()];
     rep.bound_note = format!("{n} requests, deviation bound {bound}");
@@ -542,39 +581,58 @@ pub fn run(args: &Args) -> i32 {
         let hlen = match me {
             Endpoint::Server | Endpoint::Client => healthy_head(me).len(),
         };
-        let mut plans = vec![
-            Plan::Healthy,
+        // core faults: crossed fully (every assignment of n requests over them)
+        let mut core = vec![Plan::Healthy, Plan::ResetAt(1, 0x10c), Plan::ResetAt(hlen + 5, 0x10c), Plan::StopSending(0x10c), Plan::MalformedUppercase, Plan::Oversize];
+        if me == Endpoint::Server {
+            core.push(Plan::FinBeforeHeaders);
+        }
+        // further faults: in the quick tier each of them in every assignment over {healthy, that fault, RESET mid-DATA}
+        // that contains it; in the thorough tier in every assignment over the core faults and that fault
+        let extended = vec![
             Plan::ResetAt(0, 0x10c),
-            Plan::ResetAt(1, 0x10c),
             Plan::ResetAt(hlen, 0x10c),
-            Plan::ResetAt(hlen + 5, 0x10c),
             Plan::ResetAt(hlen + 14, 0x0),
-            Plan::StopSending(0x10c),
-            Plan::MalformedUppercase,
+            Plan::StopSendingEarly(0x10c),
+            Plan::StopSendingEarly(0x100),
+            Plan::StopSending(0x100),
             Plan::MalformedTrailers,
             Plan::MalformedNoMethodOrStatus,
             Plan::MalformedBadValue,
-            Plan::Oversize,
+            Plan::MalformedEmptyName,
         ];
-        if me == Endpoint::Server {
-            plans.push(Plan::FinBeforeHeaders);
-        }
-        let mut combos: Vec<Vec<Plan>> = vec![vec![]];
-        for _ in 0..n {
-            let mut next = Vec::new();
-            for c in &combos {
-                for p in &plans {
-                    let mut d = c.clone();
-                    d.push(*p);
-                    next.push(d);
+        let product = |plans: &[Plan]| -> Vec<Vec<Plan>> {
+            let mut combos: Vec<Vec<Plan>> = vec![vec![]];
+            for _ in 0..n {
+                let mut next = Vec::new();
+                for c in &combos {
+                    for p in plans {
+                        let mut d = c.clone();
+                        d.push(*p);
+                        next.push(d);
+                    }
                 }
+                combos = next;
             }
-            combos = next;
+            combos
+        };
+        let mut combos: Vec<Vec<Plan>> = Vec::new();
+        if thorough {
+            combos.extend(product(&core));
+            for e in &extended {
+                let mut with_e = core.clone();
+                with_e.push(*e);
+                combos.extend(product(&with_e).into_iter().filter(|c| c.contains(e)));
+            }
+        } else {
+            combos.extend(product(&core));
+            for e in &extended {
+                combos.extend(product(&[Plan::Healthy, *e, Plan::ResetAt(hlen + 5, 0x10c)]).into_iter().filter(|c| c.contains(e)));
+            }
         }
         for c in combos {
             let faulty = c.iter().filter(|p| **p != Plan::Healthy).count();
             // (the all-healthy assignment stays in: concurrent healthy requests must not disturb each other either)
-            if n >= 3 && faulty == n && c[0] != c[1] {
+            if thorough && n >= 3 && faulty == n && c[0] != c[1] {
                 continue; // keep all-faulty combos only when homogeneous in the first two (thorough size control)
             }
             // a graceful shutdown under way: with every assignment that has at least one healthy and one faulty request
